@@ -375,8 +375,9 @@ def main(argv=None) -> int:
 
     known = Known(pid)
     for e in known.entries:
-        if rec.known_seen.get(e["id"]):
-            print(f"KNOWN-FINDING: property={pid} {e['id']}: {e['symptom']} (observed {rec.known_seen[e['id']]}x)")
+        n = rec.known_seen.get(e["id"], 0)
+        seen = f"observed {n}x in this run" if n else "listed; not reached by this run's cases"
+        print(f"KNOWN-FINDING: property={pid} {e['id']}: {e['symptom']} ({seen})")
     low = [
         k
         for k in getattr(mod, "REQUIRED_CLASSES", [])
